@@ -41,6 +41,9 @@ pub struct Stub {
     pub port: u16,
     /// artificial latency (ms) of `update` commands on the problem collection
     pub update_delay_ms: Arc<AtomicU64>,
+    /// artificial latency (ms) per (command, collection), e.g. ("find", "adf-problems"); applied before the
+    /// command is executed, like a slow database would
+    pub latency: Arc<Mutex<BTreeMap<(String, String), u64>>>,
 }
 
 impl Stub {
@@ -49,6 +52,8 @@ impl Stub {
         let port = listener.local_addr()?.port();
         let db = Arc::new(Mutex::new(Db::default()));
         let delay = Arc::new(AtomicU64::new(0));
+        let latency: Arc<Mutex<BTreeMap<(String, String), u64>>> = Arc::new(Mutex::new(BTreeMap::new()));
+        let latency2 = latency.clone();
         let db2 = db.clone();
         let delay2 = delay.clone();
         std::thread::spawn(move || {
@@ -57,8 +62,9 @@ impl Stub {
                     Ok(stream) => {
                         let db3 = db2.clone();
                         let d3 = delay2.clone();
+                        let l3 = latency2.clone();
                         std::thread::spawn(move || {
-                            let _ = serve(stream, db3, d3);
+                            let _ = serve(stream, db3, d3, l3);
                         });
                     }
                     Err(_) => break,
@@ -69,11 +75,21 @@ impl Stub {
             db,
             port,
             update_delay_ms: delay,
+            latency,
         })
     }
 
     pub fn uri(&self) -> String {
         format!("mongodb://127.0.0.1:{}/?directConnection=true&serverSelectionTimeoutMS=5000", self.port)
+    }
+
+    pub fn set_latency(&self, cmd: &str, coll: &str, ms: u64) {
+        let mut l = self.latency.lock().unwrap();
+        if ms == 0 {
+            l.remove(&(cmd.to_string(), coll.to_string()));
+        } else {
+            l.insert((cmd.to_string(), coll.to_string()), ms);
+        }
     }
 
     pub fn add_secret(&self, s: &str) {
@@ -99,7 +115,7 @@ fn i32_at(b: &[u8], p: usize) -> i32 {
     i32::from_le_bytes([b[p], b[p + 1], b[p + 2], b[p + 3]])
 }
 
-fn serve(mut s: TcpStream, db: Arc<Mutex<Db>>, delay: Arc<AtomicU64>) -> std::io::Result<()> {
+fn serve(mut s: TcpStream, db: Arc<Mutex<Db>>, delay: Arc<AtomicU64>, latency: Arc<Mutex<BTreeMap<(String, String), u64>>>) -> std::io::Result<()> {
     s.set_nodelay(true).ok();
     loop {
         let head = read_exact(&mut s, 16)?;
@@ -151,6 +167,13 @@ fn serve(mut s: TcpStream, db: Arc<Mutex<Db>>, delay: Arc<AtomicU64>) -> std::io
                     && cmd.get_str("update").map(|c| c == "adf-problems").unwrap_or(false);
                 if is_problem_update {
                     let ms = delay.load(Ordering::Relaxed);
+                    if ms > 0 {
+                        std::thread::sleep(std::time::Duration::from_millis(ms));
+                    }
+                }
+                if let Some((name, first)) = cmd.iter().next() {
+                    let key = (name.to_lowercase(), first.as_str().unwrap_or("").to_string());
+                    let ms = latency.lock().unwrap().get(&key).copied().unwrap_or(0);
                     if ms > 0 {
                         std::thread::sleep(std::time::Duration::from_millis(ms));
                     }
